@@ -9,7 +9,10 @@ package main
 //   The lock acquisition order is recorded WITHOUT touching ServeHTTP: an extra context.Option (run by
 //   context.New inside ProcessInit, i.e. under i.lock) numbers the acquisitions and publishes the
 //   number as the fixed time of the request, which the VCL logs ("seq:" now.sec).
-//   reply {"res": [...smRes in request order...], "seq": [acquisition number per request], "cache":…, "rc":…, "pb":…}
+//   Requests carry start_ms (when they are sent); the origin sleeps for the `delay` query parameter (ms), so a
+//   request can arrive DURING the origin fetch of another one.
+//   reply {"res": [...smRes in request order...], "seq": [acquisition number per request],
+//          "origin_by_url": {request URI: origin fetches}, "cache":…, "rc":…, "pb":…}
 //
 // conc-lint  {"vcl": "<source whose statements carry // @plugin: <name> comments>", "procs": 4}
 //   runs the linter (plugins are looked up on PATH: the check prepends build/c18plugins);
@@ -61,6 +64,7 @@ func init() {
 			t := time.Unix(concBase+int64(acquisitions), 0)
 			ctx.FixedTime = &t
 		}
+		originReset()
 		ip := smNew(c.VCL, order)
 		srv := httptest.NewServer(ip)
 		defer srv.Close()
@@ -80,8 +84,8 @@ func init() {
 			go func(i int) {
 				defer wg.Done()
 				<-start
-				time.Sleep(delays[i])
 				rq := c.Reqs[i]
+				time.Sleep(time.Duration(rq.StartMs)*time.Millisecond + delays[i])
 				req, err := http.NewRequest(http.MethodGet, srv.URL+rq.URL, nil)
 				if err != nil {
 					res[i].Panic = err.Error()
@@ -112,8 +116,9 @@ func init() {
 		wg.Wait()
 		out := struct {
 			smFinal
-			Seq []int `json:"seq"`
-		}{Seq: seq}
+			Seq    []int          `json:"seq"`
+			Origin map[string]int `json:"origin_by_url"`
+		}{Seq: seq, Origin: originCounts()}
 		out.Res = res
 		smSnapshot(ip, &out.smFinal)
 		b, _ := json.Marshal(out)
